@@ -7,7 +7,8 @@
 //!     The content string must be valid UTF-8 without NUL (the tokenizer would alter it before it
 //!     reaches encoding.rs) — otherwise `bad-case`; `"`, `&`, CR are sent as character references.
 //! `meta<TAB>doc<TAB><ctx><TAB><chunks>`
-//!     ctx = `-` (document) or a fragment context `html:select`, `svg:svg`, …; chunks = UTF-8 bytes in
+//!     ctx = `-` (document) or a fragment context `html:select`, `svg:svg`, …, optionally followed by `!`
+//!     (scripting disabled, so that `<noscript>` content is parsed as markup); chunks = UTF-8 bytes in
 //!     hex, `|`-separated.  Feeds chunk by chunk, re-feeding after every suspension.  Output:
 //!     `I:<label hex>:<n>;…;T=<tree dump>;E=<#parse errors>` where n = number of HTML `meta` elements in
 //!     the tree at that moment whose charset attribute equals the label or whose content attribute
@@ -132,7 +133,17 @@ fn count_meta(h: &Handle, label: &str) -> usize {
     n
 }
 
-fn parse_ctx(ctx: &str) -> Option<Option<QualName>> {
+/// `-` = document, `ns:name` = fragment context; a trailing `!` switches scripting off
+/// (`<noscript>` is then parsed as markup: "in head noscript" insertion mode)
+fn parse_ctx(ctx: &str) -> Option<(Option<QualName>, bool)> {
+    let (ctx, scripting) = match ctx.strip_suffix('!') {
+        Some(c) => (c, false),
+        None => (ctx, true),
+    };
+    Some((parse_ctx_name(ctx)?, scripting))
+}
+
+fn parse_ctx_name(ctx: &str) -> Option<Option<QualName>> {
     if ctx == "-" {
         return Some(None);
     }
@@ -146,21 +157,23 @@ fn parse_ctx(ctx: &str) -> Option<Option<QualName>> {
     Some(Some(QualName::new(None, ns, LocalName::from(l))))
 }
 
-fn new_parser(ctx: &Option<QualName>) -> driver::Parser<RcDom> {
-    match ctx {
-        None => driver::parse_document(RcDom::default(), Default::default()),
+fn new_parser(ctx: &(Option<QualName>, bool)) -> driver::Parser<RcDom> {
+    let mut opts = driver::ParseOpts::default();
+    opts.tree_builder.scripting_enabled = ctx.1;
+    match &ctx.0 {
+        None => driver::parse_document(RcDom::default(), opts),
         Some(q) => driver::parse_fragment(
             RcDom::default(),
-            Default::default(),
+            opts,
             q.clone(),
             Vec::<Attribute>::new(),
-            false,
+            ctx.1,
         ),
     }
 }
 
 /// feed chunks by hand, resuming after each suspension; returns (events, dom)
-fn run_manual(ctx: &Option<QualName>, chunks: &[String]) -> (Vec<String>, RcDom) {
+fn run_manual(ctx: &(Option<QualName>, bool), chunks: &[String]) -> (Vec<String>, RcDom) {
     let parser = new_parser(ctx);
     let tok = &parser.tokenizer;
     let input: &BufferQueue = &parser.input_buffer;
@@ -234,7 +247,7 @@ fn run_extract(content: &[u8]) -> String {
         .replace('"', "&quot;")
         .replace('\r', "&#13;");
     let doc = format!("<meta http-equiv=content-type content=\"{}\">", s);
-    let (events, _dom) = run_manual(&None, &[doc]);
+    let (events, _dom) = run_manual(&(None, true), &[doc]);
     match events.first() {
         None => "none".into(),
         Some(e) => {
